@@ -116,6 +116,20 @@ theorem C09_proper_prefix_raises_stream (d : Dec α) (b : Bytes) (a : α) (cs : 
   rw [C09_decode_chunk_independent]
   exact C09_proper_prefix_raises d b _ a hfull hp hne
 
+/-- **The array path** (`BaseProxyDap2.__getitem__`: the joined body — hence no dependence on transport
+    chunks by construction — split at the first `\nData:\n` and decoded through `BytesReader`), for ANY
+    read-only decoder of the data part: a response cut anywhere yields the complete value or an error
+    (separator missing / end of data). -/
+theorem C09_body_path_prefix_free (d : Dec α) (resp p : Bytes) (a : α)
+    (hfull : bodyPath d resp = .ok a) (hp : p <+: resp) :
+    bodyPath d p = .ok a ∨ bodyPath d p = .error .noData ∨ bodyPath d p = .error .eof :=
+  bodyPath_prefix d resp p a hfull hp
+
+-- non-vacuity: "x\nData:\n" ++ a 4-byte value, complete and cut
+example : bodyPath (Dec.read 4 fun b => .ret b) [120, 10, 68, 97, 116, 97, 58, 10, 1, 2, 3, 4] = .ok [1, 2, 3, 4] := by decide
+example : bodyPath (Dec.read 4 fun b => .ret b) [120, 10, 68, 97, 116, 97, 58, 10, 1, 2, 3] = .error .eof := by decide
+example : bodyPath (Dec.read 4 fun b => .ret b) [120, 10, 68, 97, 116, 97, 58] = .error .noData := by decide
+
 /-- **The record-marker loop decodes the wire form of a sequence** (any number of rows, fixed-width and
     String columns, both the `simple` and the column-by-column path) to exactly its rows, consuming
     everything … -/
